@@ -1,23 +1,27 @@
 //go:build verif
 
 // Contracts for package accum (comment-only; read by /verif/vcgo, build tag verif).
-// Only RawSection / RawSectionSize (property C16: a CAR section is uvarint(len(cid)+len(data)) ++ cid ++ data).
 package accum
 
-// Both functions are built on two external calls that vcgo does not model: (cid.Cid).Bytes() (go-cid) and
-// leb128.FromUInt64 (go-leb128). An unmodelled external call returns an arbitrary value at every call, so
-//   - the two calls of obj.Cid.Bytes() inside RawSection are not known to return the same bytes,
-//   - RawSectionSize() == len(RawSection()) and "prefix == uvarint(len(cid)+len(data))" cannot be stated, let alone proved.
-// What is stated below is the part that does not depend on them: the section ends with the object data, unmodified,
-// the result is a fresh slice, no error is ever returned, nothing is written.
+// uvl(n): width of the unsigned-LEB128 / uvarint encoding of n; uvb(n, k): its k-th byte.
+//@ spec func uvl(n uint64) int = ite(n < 128, int(1), ite(n < 16384, int(2), ite(n < 2097152, int(3), ite(n < 268435456, int(4), ite(n < 34359738368, int(5), ite(n < 4398046511104, int(6), ite(n < 562949953421312, int(7), ite(n < 72057594037927936, int(8), ite(n < 9223372036854775808, int(9), int(10))))))))))
+//@ spec func secLen(obj ObjectWithMetadata) int = cidlen(obj.Cid) + len(obj.ObjectData)
 
-//@ func (ObjectWithMetadata) RawSection
-//@   mode int
-//@   ensures result1 == nil
-//@   ensures fresh(result0)
-//@   ensures len(result0) >= len(obj.ObjectData)
-//@   ensures forall j int :: 0 <= j && j < len(obj.ObjectData) ==> result0[len(result0)-len(obj.ObjectData)+j] == obj.ObjectData[j]
+// A CAR section is uvarint(len(cid)+len(data)) ++ cid ++ data (C16; this is what carreader.ReadNodeInfoWithData parses back).
+// cidlen / cidbyte: byte form of the cid.Cid value (trusted pure functions of the value); leb128.FromUInt64 is modelled as
+// the Go uvarint encoding.
 
 //@ func (ObjectWithMetadata) RawSectionSize
 //@   mode int
-//@   ensures result >= len(obj.ObjectData)
+//@   requires secLen(obj) <= 4611686018427387904
+//@   ensures result == uvl(uint64(secLen(obj))) + secLen(obj)
+
+//@ func (ObjectWithMetadata) RawSection
+//@   mode int
+//@   requires secLen(obj) <= 4611686018427387904
+//@   ensures result1 == nil
+//@   ensures fresh(result0)
+//@   ensures len(result0) == uvl(uint64(secLen(obj))) + secLen(obj)
+//@   ensures forall j int :: 0 <= j && j < cidlen(obj.Cid) ==> result0[uvl(uint64(secLen(obj)))+j] == cidbyte(obj.Cid, j)
+//@   ensures forall j int :: 0 <= j && j < len(obj.ObjectData) ==> result0[uvl(uint64(secLen(obj)))+cidlen(obj.Cid)+j] == obj.ObjectData[j]
+//@   ensures result0[0] == ite(secLen(obj) < 128, byte(secLen(obj)), byte(secLen(obj) % 128 + 128))
